@@ -214,22 +214,47 @@ def parseTdxMods (s : String) : Except String (List TdxModulePolicy) :=
       pure { mrSeam := seam, mrSignerSeam := signer }
     | _ => .error "bad tdx module policy"
 
-def parsePolicy (m : KV) : Except String (Option Policy) :=
-  match get m "pol" with
+/-- A quote policy written with the keys `<pre>pol <pre>dis <pre>val <pre>min <pre>wl <pre>blk <pre>tdx`. -/
+def parsePolicyP (m : KV) (pre : String) : Except String (Option Policy) :=
+  match get m (pre ++ "pol") with
   | some "nil" => .ok none
   | some "set" => do
-    let dis ← getBool m "dis"
-    let val ← getNat m "val"
-    let min ← getNat m "min"
-    let wl ← strList ((get m "wl").getD "-")
-    let blk ← strList ((get m "blk").getD "-")
-    let tdx ← match get m "tdx" with
+    let dis ← getBool m (pre ++ "dis")
+    let val ← getNat m (pre ++ "val")
+    let min ← getNat m (pre ++ "min")
+    let wl ← strList ((get m (pre ++ "wl")).getD "-")
+    let blk ← strList ((get m (pre ++ "blk")).getD "-")
+    let tdx ← match get m (pre ++ "tdx") with
       | some "nil" => pure none
       | some s => do pure (some (← parseTdxMods s))
       | none => throw "missing tdx"
     pure (some { disabled := dis, validity := val, minEval := min, whitelist := wl,
                  blacklist := blk, tdx := tdx })
-  | _ => .error "bad pol"
+  | _ => .error ("bad " ++ pre ++ "pol")
+
+def parsePolicy (m : KV) : Except String (Option Policy) := parsePolicyP m ""
+
+/-- Node registration inputs: `regpol=nil|set regias=0|1 regpcs=0|1` (descriptor constraints; a set
+PCS part is the line's `pol`), `fspcs=0|1 def=nil|set defias=0|1` and the default PCS policy under
+the prefix `d` (`dpol=nil|set ...`). Absent: the policy of the line is used as it is. -/
+def parseRegistration (m : KV) (pol : Option Policy) : Except String (Option (Features × Option QPolicy)) :=
+  match get m "regpol" with
+  | none => .ok none
+  | some rp => do
+    let regias ← getBool m "regias"
+    let regpcs ← getBool m "regpcs"
+    let fspcs ← getBool m "fspcs"
+    let sc : Option QPolicy :=
+      if rp == "nil" then none
+      else some { ias := if regias then some 1 else none, pcs := if regpcs then pol else none }
+    let defp ← match get m "def" with
+      | some "nil" => pure none
+      | some "set" => do
+        let dias ← getBool m "defias"
+        let dp ← parsePolicyP m "d"
+        pure (some ({ ias := if dias then some 2 else none, pcs := dp } : QPolicy))
+      | _ => throw "bad def"
+    pure (some ({ pcs := fspcs, defaultPolicy := defp }, sc))
 
 /-- Symbolic stand-ins for the two signed JSON bodies (the model never looks inside them). -/
 def tagTcb : Bytes := [1]
@@ -382,12 +407,24 @@ def checkAtt (m : KV) (c : Case) (res : Except Stage Verified) : Option String :
           | _, _ => none
         | _ => none) with
     | some rak, some allowed =>
+      match parseRegistration m c.pol with
+      | .error e => some ("bad registration fields: " ++ e)
+      | .ok reg =>
+      -- the policy that reaches the verifier: resolved from descriptor constraints and defaults
+      let eff := match reg with
+        | some (fs, sc) => effectivePcsPolicy fs sc
+        | none => c.pol
+      let res := match reg with
+        | some _ => verify c.L c.env eff c.ts c.q c.tcb
+        | none => res
       let want := match res with
         | .error _ => "quote"
         | .ok v =>
           if !(allowed.contains (v.mrEnclave, v.mrSigner)) then "identity"
           else if slice v.reportData 0 32 != rak then "rak" else "ok"
-      let ok := attestationOK c.L c.env c.pol c.ts c.q c.tcb allowed rak
+      let ok := match reg with
+        | some (fs, sc) => registrationOK c.L c.env fs sc c.ts c.q c.tcb allowed rak
+        | none => attestationOK c.L c.env c.pol c.ts c.q c.tcb allowed rak
       if want != ia then some s!"attestation model={want} impl={ia}"
       else if ok != (ia == "ok") then some s!"attestationOK={ok} impl={ia}"
       else none
